@@ -408,6 +408,7 @@ func (c01) Exec(c *core.Case) (out *core.Outcome) {
 				continue
 			}
 			st := &ObjState{Data: src.Data, ETag: s3c.ETagOf(src.Data), Hdrs: src.Hdrs, Meta: src.Meta, Tags: src.Tags}
+			st.AltETag = src.AltETag
 			if src.MP {
 				st.AltETag = src.ETag
 			}
